@@ -727,7 +727,7 @@ func c14AdvRun(in c14AdvIn) (V, Verdict) {
 	count := 0
 	for _, f := range session {
 		count++
-		if f != want {
+		if !strings.EqualFold(f, want) {
 			return obs, Fail("advertised-fingerprint-is-not-sha256-of-certificate", fmt.Sprintf("session %q, want %q", f, want))
 		}
 	}
@@ -738,7 +738,7 @@ func c14AdvRun(in c14AdvIn) (V, Verdict) {
 		}
 		for _, f := range m {
 			count++
-			if f != want {
+			if !strings.EqualFold(f, want) {
 				return obs, Fail("advertised-fingerprint-is-not-sha256-of-certificate", fmt.Sprintf("media %q, want %q", f, want))
 			}
 		}
@@ -1050,7 +1050,7 @@ func c14ConnRun(in c14ConnIn) (V, Verdict) {
 			return obs, Fail("no-fingerprint-advertised", "local description has no fingerprint line")
 		}
 		for _, m := range ms {
-			if m[1] != "sha-256" || m[2] != strings.ToUpper(d) {
+			if m[1] != "sha-256" || !strings.EqualFold(m[2], d) {
 				return obs, Fail("advertised-fingerprint-is-not-sha256-of-certificate", m[0])
 			}
 		}
@@ -1128,13 +1128,13 @@ func init() {
 	Register(Spec[c14Desc]{
 		ID: "C14", Suite: "extract", CoqImports: []string{"Check.C14"},
 		CoqType: "list (string * string) * list (list (string * string))", CoqRun: "Check.C14.run_extract",
-		Quick: 1500, Thorough: 40000,
+		Quick: 1000, Thorough: 40000,
 		Corpus: c14ExtractCorpus, Gen: c14ExtractGen, Run: c14ExtractRun, Coq: c14ExtractCoq, Shrink: c14ExtractShrink,
 	})
 	Register(Spec[c14ValIn]{
 		ID: "C14", Suite: "validate", CoqImports: []string{"Check.C14"},
 		CoqType: "list (string * string) * list (string * option string)", CoqRun: "Check.C14.run_validate",
-		Quick: 1200, Thorough: 40000,
+		Quick: 800, Thorough: 40000,
 		Corpus: c14ValidateCorpus, Exhaustive: c14ValidateExhaustive, Gen: c14ValidateGen,
 		Run: c14ValidateRun, Coq: c14ValidateCoq,
 	})
